@@ -76,8 +76,8 @@ CLAIMS = {
         "The model's event sequence is compared exactly with the real loop (through _run_strong_sim/_run_weak_sim, stubs for the "
         "gate kernels) on random circuits; real-numerics search compares results with/without barriers and each sampled column "
         "with Qiskit's Statevector of the prefix. PARTIAL: Qiskit's DAG API is modelled as an instruction list with the "
-        "front-layer rule; labelled barriers are taken full-width. Extended: layer-sampling history model (run_layers) with theorem and history trace; partial and trailing labelled barriers. Weak-mode numerics: the sampling distribution of the state handed to measure_shots (every outcome string forced once) vs the exact amplitudes, for circuits ending in a two-qubit gate away from the left edge, with and without barriers. Gauge word of the whole noise-free trajectory (traj_word) with theorem that every gate and every read (observables, measure_shots) finds the centre at site 0 in all three modes, tied to the recorded normalize/evaluate/measure calls of the real loop.",
-        COMMON_NOTE + "Modelled, not verified: DAGCircuit.front_layer/remove_op_node.",
+        "front-layer rule; labelled barriers are taken full-width. Extended: layer-sampling history model (run_layers) with theorem and history trace; partial and trailing labelled barriers. Weak-mode numerics: the sampling distribution of the state handed to measure_shots (every outcome string forced once) vs the exact amplitudes, for circuits ending in a two-qubit gate away from the left edge, with and without barriers. Gauge word of the whole noise-free trajectory (traj_word) with theorem that every gate and every read (observables, measure_shots) finds the centre at site 0 in all three modes, tied to the recorded normalize/evaluate/measure calls of the real loop. Front-layer filtering regenerated from the source of process_layer on every run (translate_layer.py -> Gen/LayerGen.v) and proved equal to the classification inside the loop model; validated node by node against the real process_layer.",
+        COMMON_NOTE + "Translator harness/gen/translate_layer.py (str.upper() modelled on ASCII letters). Modelled, not verified: DAGCircuit.front_layer/remove_op_node.",
         "DESIGN.md §3 C16"),
     "C20": (
         "Coq proof (induction over run histories of the parameter-object model) + exact history correspondence with the real front-ends under counting stubs + real-run search (input immutability, per-trajectory generators)",
